@@ -93,11 +93,19 @@ func protoCodecs(c *core.Ctx) []*protoCodec {
 			if !ok || fd.Body == nil {
 				continue
 			}
+			nLit := 0
 			ast.Inspect(fd.Body, func(n ast.Node) bool {
 				switch x := n.(type) {
 				case *ast.CompositeLit:
 					if isCodec(p.TypesInfo.TypeOf(x)) {
-						pc := get(fd.Name.Name, x.Pos())
+						// a function may build more than one codec (the struct compiler also wraps
+						// scalar codecs in pointer codecs): each literal is its own entry
+						nLit++
+						name := fd.Name.Name
+						if nLit > 1 {
+							name = fmt.Sprintf("%s#%d", fd.Name.Name, nLit)
+						}
+						pc := get(name, x.Pos())
 						for _, el := range x.Elts {
 							if kv, ok := el.(*ast.KeyValueExpr); ok {
 								setField(pc, kv.Key.(*ast.Ident).Name, kv.Value)
